@@ -5,7 +5,8 @@ import shapelib as sl
 from lib import coq_list as L
 
 THEOREMS = ['C03_chain_spec', 'C03_chain_assert', 'C03_lalr_filters_copy', 'C03_lalr_builds_shape',
-            'C03_shape_total', 'C03_placeholders_count', 'C03_find_rule_size', 'C03_maybe_untaken',
+            'C03_shape_total', 'C03_placeholders_count', 'C03_earley_resolve_is_shape_of_derivation', 'C03_cnf_roundtrip_partial', 'C03_cyk_is_shape',
+            'C03_engines_agree_partial', 'C03_find_rule_size', 'C03_maybe_untaken',
             'C03_example_rule', 'C03_example_size', 'C03_example_derivation']
 GEN_DEPS = []
 RULE = ('(a) random compiled-rule records (0-5 symbols, terminals/rules, `_` names, filter_out, alias, template source, '
@@ -20,7 +21,11 @@ RULE = ('(a) random compiled-rule records (0-5 symbols, terminals/rules, `_` nam
         'the EBNF), all equal when there is one derivation; the derivation followed by lark\'s LALR driver is shaped '
         'by Spec.shape and by the chain-at-each-reduction driver in Coq and must give lark\'s tree; (f) random rule trees '
         '(symbols, _EMPTY, expansion, expansions): FindRuleSize(keep_all).transform and the _EMPTY count of '
-        'EBNF_to_BNF.maybe against Shape/Ebnf.frs and the longest-alternative count; (r) fixed F18 regression grammars. '
+        'EBNF_to_BNF.maybe against Shape/Ebnf.frs and the longest-alternative count; (r) fixed F18 regression grammars; (g) Earley leg: the SPPF lark builds (ambiguity=forest, basic / dynamic '
+        'lexer) is exported and ForestToParseTree(resolve) with the chain callbacks is evaluated on it in Coq: must equal '
+        'the tree Lark(ambiguity=resolve) returns and the shape of the selected derivation; (k) CYK leg: the CNF grammar '
+        'cyk.to_cnf builds is compared as a set with Shape/Cnf.to_cnf, and for every CYK parse the CNF tree handed to '
+        'revert_cnf, the reverted tree and the returned tree are compared with Cnf.revert, Cnf.cnf_of (pre-image) and shape. '
         'non-trivial = distinct (record, config, children) with a filter or expand1 / distinct (grammar, config, text) '
         'whose tree has >= 2 nodes')
 TRUSTED_BASE = ['hand model Shape/Chain.v of parse_tree_builder.py (tied by introspecting lark\'s callback objects and '
@@ -33,7 +38,8 @@ TRUSTED_BASE = ['hand model Shape/Chain.v of parse_tree_builder.py (tied by intr
 ASSUMPTIONS = ['terminals of the end-to-end grammars are single distinct characters (lexing is not under test here)',
                'GrammarError at construction (colliding optional expansions, LALR conflicts) and CYK\'s rejection of '
                'empty rules exclude the engine for that grammar']
-IMPORTS = 'From LV Require Import Base.Prelude Shape.Chain Shape.Spec Shape.Transform Shape.Ebnf Shape.ChainCheck.'
+IMPORTS = ('From LV Require Import Base.Prelude Forest.Sppf Forest.Prio Shape.Chain Shape.Spec Shape.Transform Shape.Ebnf '
+           'Shape.EarleyLeg Shape.Cnf Shape.ChainCheck.')
 
 ENGINES = [('earley', 'dynamic', 'resolve'), ('earley', 'basic', 'resolve'), ('earley', 'dynamic_complete', 'resolve'),
            ('earley', 'dynamic', 'explicit'), ('lalr', 'basic', None), ('lalr', 'contextual', None), ('cyk', 'basic', None)]
@@ -212,6 +218,83 @@ def find_rule_size_stream(ctx):
         DEFER.add('(CaseFRS %s)' % term_, ('frs', h))
 
 
+def earley_forest_case(ctx, gtext, text, ka, mp, lexer):
+    """export the SPPF lark's Earley builds and the tree it returns in resolve mode: Coq evaluates
+    ForestToParseTree(resolve) with the chain callbacks on the exported forest"""
+    from props import forest_common as fc
+    from lark import Lark
+    from lark.exceptions import LarkError
+    try:
+        pf = Lark(gtext, parser='earley', ambiguity='forest', lexer=lexer, keep_all_tokens=ka, maybe_placeholders=mp)
+        root = pf.parse(text)
+        tree = sl.stree_of(Lark(gtext, parser='earley', ambiguity='resolve', lexer=lexer, keep_all_tokens=ka,
+                                maybe_placeholders=mp).parse(text))
+    except (LarkError, sl.NotShaped):
+        return
+    summed = pf.parser.parser.forest_sum_visitor is not None
+    if summed:
+        return          # the grammars of this stream carry no priorities (C05 covers the summed walk)
+    nodes = fc.export_graph(root, pf)
+    if fc.is_cyclic(nodes) or fc.unfolded_size(nodes) > 400:
+        ctx.count('earley-forest-skipped')
+        return
+    rules = L([sl.rrec_lit(sl.rrec_of_rule(r)) for r in pf.rules])
+    term = '((%s, %s, %s, %s, %s) : earley_case)' % (rules, sl.B(mp), sl.B(summed), fc.coq_forest(nodes, annotated=False),
+                                                   sl.stree_lit(tree))
+    ctx.count('earley-forest-coq', key=(gtext, text, ka, mp, lexer), nontrivial=fc.count_derivs(nodes) >= 1 and sl.stree_size(tree) >= 2,
+              forest_derivations=min(fc.count_derivs(nodes), 3))
+
+    def h():
+        ctx.violation('correspondence:Shape/EarleyLeg.earley_resolve vs Lark(parser=earley, ambiguity=resolve)',
+                      {'no_longer_checks': 'ForestToParseTree(resolve) with the chain callbacks on the exported forest == lark tree '
+                                           '== shape of the selected derivation', 'grammar': gtext, 'text': text,
+                       'keep_all_tokens': ka, 'maybe_placeholders': mp, 'lexer': lexer, 'observed': sl.show(tree)}, False,
+                      'Coq forest-to-tree (resolve) on the forest lark built differs from the tree lark returned')
+    DEFER.add('(CaseEARLEY %s)' % term, ('earley', h))
+
+
+def cyk_cases(ctx, cyk, gtext, texts, ka, mp):
+    """CYK leg: lark's CNF grammar against Cnf.to_cnf, and every CNF parse / reverted tree against
+    Cnf.revert / Cnf.cnf_of / Spec.shape"""
+    from lark.exceptions import LarkError
+    try:
+        nm = sl.CnfNames(cyk)
+        rules = L([sl.rrec_lit(sl.rrec_of_rule(r)) for r in cyk.rules])
+        g = L([nm.rule(r) for r in cyk.parser.parser.parser.grammar.rules])
+    except ValueError as ex:
+        ctx.violation('correspondence:cyk-helper-names', {'no_longer_checks': 'injective helper names in to_cnf',
+                                                          'grammar': gtext, 'error': str(ex)}, False, str(ex))
+        return
+    ctx.count('cyk-cnf-grammar', key=(gtext, ka), nontrivial=True)
+
+    def hg():
+        ctx.violation('correspondence:Shape/Cnf.to_cnf vs cyk.to_cnf', {'no_longer_checks': 'CNF grammar (as a set of rules)',
+                                                                          'grammar': gtext, 'keep_all_tokens': ka}, False,
+                      'the CNF grammar lark built differs from the model')
+    DEFER.add('(CaseCNFG ((%s, %s) : cnfg_case))' % (rules, g), ('cnfg', hg))
+    for text in texts:
+        try:
+            cap = sl.cyk_capture(cyk, text)
+            tree = sl.stree_of(cap['tree'])
+        except (LarkError, sl.NotShaped):
+            continue
+        except Exception:
+            continue          # reported by check_text (e2e-shape) with the failing input
+        if 'cnf' not in cap or sl.stree_size(tree) > 60:
+            continue
+        term = '((%s, %s, %s, %s, %s) : cyk_case)' % (rules, sl.B(mp), nm.tree(cap['cnf']), nm.otree(cap['reverted']),
+                                                     sl.stree_lit(tree))
+        ctx.count('cyk-coq', key=(gtext, text, ka, mp), nontrivial=sl.stree_size(tree) >= 2)
+
+        def h(text=text, tree=tree):
+            ctx.violation('correspondence:Shape/Cnf.revert / cnf_of vs cyk.revert_cnf',
+                          {'no_longer_checks': 'revert_cnf of lark\'s CNF parse == model; CNF parse == pre-image of the derivation; '
+                                               'shape of the derivation == CYK tree', 'grammar': gtext, 'text': text,
+                           'keep_all_tokens': ka, 'maybe_placeholders': mp, 'observed': sl.show(tree)}, False,
+                          'CYK: reverted tree / CNF pre-image / shaped tree differ from the Coq model')
+        DEFER.add('(CaseCYK %s)' % term, ('cyk', h))
+
+
 def build(text, parser, lexer, amb, ka, mp):
     from lark import Lark
     kw = dict(parser=parser, lexer=lexer, keep_all_tokens=ka, maybe_placeholders=mp)
@@ -364,8 +447,18 @@ def correspond(ctx):
             lalr_ok += (lalr is not None and (ka, mp) == (False, True))
             if lalr is not None and rng.random() < 0.5:
                 comp_records.extend(sl.rrec_of_rule(r) for r in lalr.rules[:8])
+            if ('cyk', 'basic', None) in parsers:
+                try:
+                    cyk_cases(ctx, parsers[('cyk', 'basic', None)], gtext, texts, ka, mp)
+                except Exception as ex:
+                    ctx.violation('harness:cyk-capture', {'grammar': gtext, 'error': repr(ex)[:300]}, False, repr(ex)[:300])
             for text in texts:
                 tree = check_text(ctx, G, gtext, parsers, oracle, text, ka, mp, 'e2e')
+                if rng.random() < 0.45:
+                    try:
+                        earley_forest_case(ctx, gtext, text, ka, mp, rng.choice(['basic', 'dynamic']))
+                    except Exception as ex:
+                        ctx.violation('harness:earley-forest', {'grammar': gtext, 'text': text, 'error': repr(ex)[:300]}, False, repr(ex)[:300])
                 if tree is not None and lalr is not None:
                     try:
                         d = sl.lalr_derivation(lalr, text)
